@@ -426,7 +426,8 @@ def judge_case(ev, j, res, cj, cres, combo, canaries):
         bad = True
     if bad:
         return out
-    for a, x in actions_results(res):
+    from ..harness import with_followups
+    for a, x in with_followups(actions_results(res)):
         if x.get("action_exc"):
             continue
         if a["a"] == "roundtrip" and a["x"].get("expect_reject") and any(e_ in ("exception", "value_altered") for e_, _, _ in out):
